@@ -328,6 +328,20 @@ def run(ctx):
                 ops.append(('t',))
             else:
                 ops.append(('n',))
+        if i % 4 == 3:
+            # directed at the percentage threshold: a share of throttled responses a fraction of a percentage point above / at / below deny_request_at
+            deny = rng.choice([Fraction(1), Fraction(20), Fraction(50), Fraction(1, 2), Fraction(5)])
+            tot = rng.randint(max(int(sample), 1), 400)
+            base = int(deny * tot / 100)
+            thr_n = max(0, min(tot, base + rng.choice([0, 1, 1, 1, 2])))
+            marks = ['t'] * thr_n + ['n'] * (tot - thr_n)
+            rng.shuffle(marks)
+            ops = [(m,) for m in marks]
+            t = Fraction(0)
+            for _ in range(rng.randint(1, 4)):
+                t += rng.choice([Fraction(1, 1024), Fraction(1, 4), period / 2])
+                ops.append(('a', t))
+            ctx.count('throttle_histories_at_the_percentage_threshold')
         if i < len(corpus):
             period, sample, deny, ops = corpus[i]
         out, tie = run_throttle(period, sample, deny, 0, ops)
